@@ -91,3 +91,8 @@ def run(ctx):
         st.append(x)
     G.stdin_mode_check(ctx, eng, st)
 
+    tw = []
+    for _ in range(ctx.pick(10, 120)):
+        x = G.gen_spec(ctx.rng.fork(), "C06", small=True)
+        tw.append(G.add_boundary_twins(ctx.rng.fork(), x))
+    G.process_results(ctx, eng, eng.run_specs(tw))
